@@ -306,7 +306,7 @@ KV_SHAPES = ['k = 1', 'k = "v"', 'k = "a;b,c"', 'k = x', 'k', 'k:? = x', 'k:% = 
              # comment-like text inside a key-value string
              'k = "http://host/feed"', 'k = "a /* b */ c"', 'k = "glob/*"',
              # string-literal keys (log >= 0.4.21)
-             '"q key" = 1', '"ref" = x',
+             '"q key" = 1', '"ref" = x', '"q key":? = x',
              # a block inside the value, with a statement and a string literal of its own; a struct literal with commas
              'k = if c { g(); "p" } else { "q" }', 'k = m { a: 1, b: "v" }.b']
 MESSAGES = ['plain', '{} {}', '{name:?}', 'say \\"hi\\"', 'é名😀', 'mid [ref: 12] text', ' leading blank', '\\tleading escape',
